@@ -9,7 +9,7 @@ COMMON = dict(
                  "no Wasm engine exists in the sandbox: the execution oracle is the Gallina interpreter evaluated by vm_compute"],
 )
 SIM_NOTE = ("Trusted: Coq kernel + vm_compute; WasmP.v as the meaning of control flow and of the probe modes; the harness. The simulation theorem is about the "
-            "tree-level lowering; Proofs/Flatten.v proves that the flat mirror of resolve_special_instrumentation + emission produces exactly the flattening of that tree (resolve_flatten, all bodies in the fragment without the D15-D18 shapes), so the "
+            "tree-level lowering; Proofs/Flatten.v proves that the flat mirror of resolve_special_instrumentation + emission produces exactly the flattening of that tree (resolve_flatten, all bodies in the fragment without the D16-D18 shapes: semantic-after on branch instructions), so the "
             "end-to-end theorem is about the mirror; the mirror's tie to /repo is the per-case comparison mirror = emitted body (and tree_tie, which follows from it).")
 PROPS = {
     "C16": dict(COMMON,
@@ -43,9 +43,10 @@ PROPS = {
         proof_targets=["Props/C19.vo"], theorems=[("C19", "C19_block_exit_tree_lowering_correct"), ("C19", "C19_emitted_code_simulates_the_probe_semantics"), ("C19", "C19_tree_tie_follows_from_the_correspondence")],
         quick=dict(n=1200), thorough=dict(n=16000),
         rule="as C16 with block-exit probes on random subsets of block/loop/if/else, arbitrarily nested blocks inside if-arms; non-trivial = every case",
-        level_text="Proof (simulation theorem) for the tree placement of block-exit probes; the implementation deviates in the known class D15 (refutation witness proved); outside D15 tied by "
-                   "flat(lower tree) = emitted body and differential execution.",
-        level_note=SIM_NOTE, technique="Coq simulation proof + refutation witness + in-Coq differential execution", design_ref="5/C19"),
+        level_text="Proof (simulation theorem, all programs) that the tree placement of block-exit probes fires them exactly when the body / then-arm falls through, and proof that the flat mirror emits the flattening of that tree "
+                   "for every nesting (the pending exit code of an `if` is keyed by its block id; the former defect D15 is repaired by a fix: commit and its witness now satisfies the property: C19_former_D15_witness_holds); tied to the implementation by "
+                   "flat(lower tree) = emitted body and differential execution on every sampled program.",
+        level_note=SIM_NOTE, technique="Coq simulation proof + in-Coq differential execution", design_ref="5/C19"),
     "C20": dict(COMMON,
         proof_targets=["Props/C20.vo"], theorems=[("C20", "C20_partial_semantic_after_on_constructs")],
         quick=dict(n=1200), thorough=dict(n=16000),
